@@ -143,6 +143,10 @@ pub fn history(h: u8, players: &[Option<u8>; 4], v: (u8, u8)) -> Option<Vec<Fram
 		// no frames at all: Game End (if any) follows Game Start directly -- what writing a skip-frames result gives
 		return Some(vec![]);
 	}
+	if h == 10 {
+		// exactly one frame (the boundary between "no frames" and "frames"), everybody present, one item where items exist
+		return Some(vec![FrameSpec { id: -123, present: chars.clone(), items: if v >= (3, 0) { 1 } else { 0 } }]);
+	}
 	if h == 9 {
 		// long game: more than 2^16 frame rows (sizes and offsets that no longer fit 16 bits), everybody present, no items
 		return Some((0..LONG_ROWS).map(|r| FrameSpec { id: -123 + r as i32, present: chars.clone(), items: 0 }).collect());
@@ -287,7 +291,7 @@ pub fn candidates() -> Vec<Spec> {
 	let mut out = vec![];
 	for v in VERSIONS {
 		for players in PORTS {
-			for hist in 0..9u8 {
+			for hist in (0..9u8).chain([10u8]) {
 				let Some(frames) = history(hist, &players, v) else { continue };
 				for gecko in GECKOS {
 					if gecko.is_some() && v < (3, 3) {
